@@ -915,6 +915,9 @@ class Evaluator:
                 other = b if sa is not None else a
                 if other is None or isinstance(other, (Ref, Closure, Rec, str, bool, list, tuple, dict)) or (isinstance(other, Poly) and other.is_const()):
                     return not isinstance(op, ast.Is)
+                oat_ = other.as_atom() if isinstance(other, Poly) else None
+                if isinstance(other, Poly) and (oat_ is None or (isinstance(oat_, tuple) and oat_ and oat_[0] in ('[]', '.', 'call'))):
+                    return not isinstance(op, ast.Is)          # something read from the inputs / computed is never the module's private marker object
                 if isinstance(other, Opq) and other.k and other.k[0] == 'dispatch' and isinstance(other.k[1], dict) and not any(_sentinel(v_) is not None for v_ in other.k[1].values()):
                     return not isinstance(op, ast.Is)
             r = Opq('is', a, b)
@@ -1192,6 +1195,10 @@ class Evaluator:
                 for p_ in parts_[1:]: out_ = s._binop(ast.Add(), out_, p_)
                 return out_
             depth_id = len(gens)
+            while depth_id >= 1 and isinstance(it, Cond) and not isinstance(it, BoolSel) and ((isinstance(it.b, (list, tuple)) and not it.b) or (isinstance(it.a, (list, tuple)) and not it.a)):
+                # ... for y in (ys if c else []):  nothing is visited when c fails -- c filters the enclosing generator
+                if isinstance(it.b, (list, tuple)) and not it.b: gens[-1] = (gens[-1][0], list(gens[-1][1]) + [it.g]); it = it.a
+                else: gens[-1] = (gens[-1][0], list(gens[-1][1]) + [s.negate(it.g)]); it = it.b
             pos_ = _positions_of(it)
             if pos_ is not None and isinstance(g.target, ast.Name):
                 # for i in np.flatnonzero([p(x) for x in xs]): the positions of xs whose element passes p, in order -- xs[i] is that element
@@ -1821,6 +1828,9 @@ class Evaluator:
         if attr in ('keys', 'values', 'items') and not args:
             return Opq(attr, recv)
         if attr in ('copy',) and not args: return recv
+        if attr == 'get' and 1 <= len(args) <= 2 and not kw and isinstance(recv, Poly) and recv.as_atom() is not None and (isinstance(args[0], str) or isinstance(args[0], Poly)):
+            # d.get(k, default) on a mapping we know nothing about: d[k] when k is in d, the default otherwise
+            return s.mkcond(s.compare(ast.In(), args[0], recv), s.getitem(recv, args[0]), args[1] if len(args) == 2 else None)
         if attr == 'get' and args:
             return Opq('get', recv, *args)
         # method of an unknown object: numeric-capable atom
@@ -2122,6 +2132,8 @@ class Evaluator:
                     en_ = Opq('enumerate', _iter_view(args[i_]))
                     idx_, el_ = s.elem_of(en_, 0)
                     return Comp((el_, idx_) if i_ == 0 else (idx_, el_), [(en_, [])], 'list')
+        if name == 'dict' and len(args) == 1 and not kw and isinstance(a, Poly) and a.as_atom() is not None:
+            return a          # a plain copy of a mapping reads like the mapping
         if name == 'dict' and len(args) == 1 and not kw and isinstance(a, Comp) and a.kind in ('list', 'gen') and isinstance(a.elt, (tuple, list)) and len(a.elt) == 2:
             return Comp(tuple(a.elt), a.gens, 'dict')
         if name == 'next' and len(args) == 1 and not kw and isinstance(a, Comp) and a.kind in ('gen', 'list') and len(a.gens) == 1 and len(a.gens[0][1]) == 1 \
@@ -2700,6 +2712,10 @@ class Evaluator:
                 s.rebind(nm, cur + [args[0]], env); return
             if attr == 'update' and isinstance(cur, dict) and len(args) == 1 and isinstance(args[0], dict):
                 s.rebind(nm, {**cur, **args[0]}, env); return
+            if attr == 'sort' and not args and not e.keywords and (isinstance(cur, (list, Comp)) or (isinstance(cur, Opq) and cur.k and cur.k[0] in ('list', 'concat', 'sorted'))):
+                # xs.sort() on a list value: xs is now sorted(xs)
+                s.mutations.append((nm, attr, args))
+                s.rebind(nm, s.builtin('sorted', [cur], {}, mod, depth), env); return
             if attr in ('append', 'remove', 'sort', 'extend', 'clear', 'insert', 'pop', 'update', 'add', 'discard', 'reverse', 'setdefault'):
                 s.mutations.append((nm, attr, args))
                 s.rebind(nm, Opq('mutated', attr, cur, *args), env); return
